@@ -220,13 +220,6 @@ func entriesOf(a *fasthttp.Args) string {
 	return hlib.List(it)
 }
 
-func optBytes(b []byte) string {
-	if b == nil {
-		return hlib.None()
-	}
-	return hlib.Some(hlib.Hex(b))
-}
-
 func apply(a *fasthttp.Args, o opd) string {
 	k, v := []byte(o.K), []byte(o.V)
 	switch o.Op {
@@ -289,16 +282,43 @@ func apply(a *fasthttp.Args, o opd) string {
 	panic("bad op " + o.Op)
 }
 
-func observe(a, b *fasthttp.Args, probe []hlib.B, via int) string {
-	var all []string
+// pack concatenates <len-hi><len-lo><bytes> for every item (see Check/C28Check.v unpack).
+func pack(items [][]byte) []byte {
+	var out []byte
+	for _, it := range items {
+		if len(it) > 65535 {
+			panic("item too long to pack")
+		}
+		out = append(out, byte(len(it)>>8), byte(len(it)))
+		out = append(out, it...)
+	}
+	return out
+}
+
+func b01(f bool) byte {
+	if f {
+		return 1
+	}
+	return 0
+}
+
+func packedEntries(a *fasthttp.Args) (kv, nov []byte) {
+	var items [][]byte
 	for k, v := range a.All() {
-		all = append(all, hlib.Tuple(hlib.Hex(k), hlib.Hex(v)))
+		items = append(items, append([]byte{}, k...), append([]byte{}, v...))
 	}
-	nov := fasthttp.VerifArgsNoValue(a)
-	novs := make([]string, len(nov))
-	for i, f := range nov {
-		novs[i] = hlib.Bool(f)
+	flags := fasthttp.VerifArgsNoValue(a)
+	if 2*len(flags) != len(items) {
+		panic("All() and noValue flags disagree in length")
 	}
+	for _, f := range flags {
+		nov = append(nov, b01(f))
+	}
+	return pack(items), nov
+}
+
+func observe(a, b *fasthttp.Args, probe []hlib.B, via int) string {
+	allkv, nov := packedEntries(a)
 	var qs []byte
 	switch via % 3 {
 	case 0:
@@ -308,7 +328,7 @@ func observe(a, b *fasthttp.Args, probe []hlib.B, via int) string {
 	default:
 		qs = a.AppendBytes(nil)
 	}
-	var pr []string
+	var pr [][]byte
 	for _, k := range probe {
 		var pk []byte
 		var pm [][]byte
@@ -318,11 +338,18 @@ func observe(a, b *fasthttp.Args, probe []hlib.B, via int) string {
 		} else {
 			pk, pm, has = a.PeekBytes(k), a.PeekMultiBytes(k), a.HasBytes(k)
 		}
-		pr = append(pr, hlib.Tuple(optBytes(pk), hlib.HexList(pm), hlib.Bool(has)))
+		if len(pm) > 255 {
+			panic("too many values to pack")
+		}
+		pr = append(pr, []byte{b01(pk == nil), b01(has), byte(len(pm))}, append([]byte{}, pk...))
+		for _, v := range pm {
+			pr = append(pr, append([]byte{}, v...))
+		}
 	}
 	// round trip into a second, long-lived Args (so that its slots are reused with stale contents)
 	b.ParseBytes(append([]byte{}, qs...))
-	return hlib.App("Obs", hlib.Z(int64(a.Len())), hlib.List(all), hlib.List(novs), hlib.Hex(qs), hlib.List(pr), entriesOf(b))
+	rtkv, rtnov := packedEntries(b)
+	return hlib.App("PObs", hlib.Z(int64(a.Len())), hlib.Hex(allkv), hlib.Hex(nov), hlib.Hex(qs), hlib.Hex(pack(pr)), hlib.Hex(rtkv), hlib.Hex(rtnov))
 }
 
 func run(d desc) hlib.Case {
@@ -343,11 +370,11 @@ func run(d desc) hlib.Case {
 			sig.WriteString(o.Op[:1] + o.Op[len(o.Op)-1:] + strconv.Itoa(before))
 			size += len(o.K) + len(o.V)
 		}
-		pk := make([]string, len(d.Probe))
+		pk := make([][]byte, len(d.Probe))
 		for i, k := range d.Probe {
-			pk[i] = hlib.Hex(k)
+			pk[i] = k
 		}
-		c.Coq = hlib.App("CSeq", hlib.List(pk), hlib.List(steps))
+		c.Coq = hlib.App("CSeqP", hlib.Hex(pack(pk)), hlib.List(steps))
 		c.Sig = "seq:" + sig.String()
 		c.Size = size
 		c.Kind = "seq-len" + strconv.Itoa((len(d.Ops)+9)/10*10)
